@@ -1781,6 +1781,7 @@ func (self *LockDB) doTimeOut(lock *Lock, forcedExpried bool, removeWaited bool)
 		} else {
 			_ = lockProtocol.FreeLockCommandLocked(lockCommand)
 		}
+		verifPoint(3)
 		self.wakeUpWaitLocks(lockManager, nil)
 	}
 }
@@ -2115,6 +2116,7 @@ func (self *LockDB) Lock(serverProtocol ServerProtocol, command *protocol.LockCo
 				lockManager.glock.Unlock()
 				_ = serverProtocol.ProcessLockResultCommand(command, protocol.RESULT_LOCKED_ERROR, uint16(lockManager.locked), currentLock.locked, lockData)
 				_ = serverProtocol.FreeLockCommand(currentLockCommand)
+				verifPoint(11)
 				self.wakeUpWaitLocks(lockManager, serverProtocol)
 				return nil
 			}
@@ -2160,6 +2162,7 @@ func (self *LockDB) Lock(serverProtocol ServerProtocol, command *protocol.LockCo
 
 				_ = serverProtocol.ProcessLockResultCommand(command, protocol.RESULT_SUCCED, uint16(lockManager.locked), currentLock.locked, lockData)
 				_ = serverProtocol.FreeLockCommand(currentLockCommand)
+				verifPoint(11)
 				self.wakeUpWaitLocks(lockManager, serverProtocol)
 				return nil
 			}
